@@ -17,7 +17,8 @@ RULE = (
     "with and without a short last batch, ALL 2^B-2 non-empty proper subsets "
     "of finished batches, x shuffle {False, True} x realisation (1-D grid, "
     "2-D grid, case list) x reap mode/result kind in {raw int, raw ndarray, "
-    "raw bool, raw str, raw tuple, Runner-Dataset with 2 variables, "
+    "raw bool, raw str, raw tuple, raw tuples holding int / bool / str "
+    "ndarrays, raw 2-D int ndarray, Runner-Dataset with 2 variables, "
     "Runner-Dataset with an internal dimension, Dataset-valued function, "
     "DataFrame}.  Oracle: which setting lives in which batch is read from the "
     "batch files; every position of a finished batch equals the direct run, "
@@ -34,6 +35,7 @@ ASSUMPTIONS = [
 ]
 
 MODES = ["raw-int", "raw-ndarray", "raw-bool", "raw-str", "raw-tuple2",
+         "raw-tuple_intarr", "raw-intarr2d", "raw-tuple_strarr",
          "ds-2vars", "ds-internal", "ds-xobj", "df"]
 
 
